@@ -20,6 +20,10 @@ CHECKS = {
    technique="TLA+ spec MPKeyGen (shares as member sets with tags, digest-functional aggregation): TLC enumerates all aggregation schedules; replay on the multiparty protocols; TLC trace validation",
    text="TLC enumerates every aggregation schedule for 3 and 4 parties (all merge orders, operand orders, in-place or fresh outputs, serialisation hops; 5-8 parties by simulation) and checks the share algebra; each schedule is replayed on the real public-key, evaluation-key, Galois-key and two-round relinearisation-key protocols for seven key parameterisations (incl. unequal prime sizes with base-2 digits, two P primes, no P); the trace must show digests that depend only on the member set, refusals of mismatched shares, and a finalised key that works under the ideal secret with bounded noise.",
    note="Trusted: TLC, the MPKeyGen specification, the bgv/rlwe single-party evaluator and decryptor used to exercise the key, sha256 digests of MarshalBinary. Noise bound is relative to a single-party key of the same ideal secret."),
+ "C15": dict(spec="Threshold / ThresholdMC / ThresholdTrace", design="DESIGN.md §5 C15",
+   technique="TLA+ spec Threshold (Shamir sharing and Lagrange recombination over Z_q): TLC exhausts the design on scalars; traces of multiparty.Thresholdizer/Combiner recomputed coefficient by coefficient by TLC",
+   text="TLC checks Reconstruct and ListingIndependent for every N<=3, t<=N, injective point assignment, secrets/coefficients from pools and every active listing; the real Thresholdizer/Combiner run on toy fields (N=16, q in {97,193,12289}) for all 1<=t<=N<=4, all active subsets and up to 6 listing orders, every share, aggregated share and additive share being recomputed by TLC, plus real-size runs (points up to 2^64-1) checked for the reconstruction identity, listing independence and refusal of t-1 parties.",
+   note="Trusted: TLC, the Threshold specification, uint64 reduction of the public points modulo q in the harness. Points are chosen distinct modulo every modulus."),
  "C09": dict(spec="IntEval (frame) ...", design="DESIGN.md §5 C09",
    technique="TLA+ spec IntEval with frame condition: TLC-generated programs with all aliasing patterns replayed on poisoned evaluators, TLC trace validation",
    text="Same generated programs as C05, with the frame condition switched on in the trace specification: after every call every register other than the designated output, and every non-ciphertext operand (*big.Int, slices, plaintexts) must be bit-for-bit unchanged; outputs aliased with op0/op1 and outputs that previously held a larger degree or level must produce the model's (alias-independent) value; all evaluator scratch buffers are filled with garbage before every call so residue dependence shows as a wrong value.",
